@@ -25,3 +25,8 @@ package session
 //@   ensures[C04 the-id-is-the-hex-text-of-freshly-read-random-bytes] randreads == old(randreads) + 1 && len(lastrandbuf) >= 16 && same(lasthexsrc, lastrandbuf) && result == lasthex && len(result) >= 32
 //@ func NewSession
 //@   ensures[C04 a-new-session-carries-a-freshly-generated-id] result != nil && randreads == old(randreads) + 1 && result.ID == lasthex && len(result.ID) >= 32
+
+// C05 — broadcasts address every live session: the listing of active sessions leaves none out
+//@ func SessionManager.GetActiveSessions
+//@   loop 1 invariant[C05] len(sessionIDs) == yielded(1)
+//@   ensures[C05 every-live-session-is-listed] len(result) == atlock(len(m.sessions))
